@@ -272,7 +272,7 @@ Definition item_of (c : change) : item :=
   mkI (c_oldp c) (c_newp c) (c_id c)
       (match c_newe c with
        | Some e => Some (mkE (e_parent e) (e_name e) (e_kind e) (e_content e)
-                             (match e_kind e with KFile => e_exec e | _ => false end) false)
+                             (eff_exec e) false)
        | None => None
        end).
 
@@ -308,6 +308,11 @@ Definition apply_delta (basis : tree) (d : list item) : option tree :=
 (* ------------------------------------------------------------------ *)
 (* 5. Commit.commit: the data path *)
 
+(* osutils.minimum_path_selection: drop every path that lies inside another path of the list *)
+Definition min_sel (l : list path) : list path :=
+  filter (fun p => negb (existsb (fun q => is_inside q p && negb (path_eqb q p)) l)) l.
+
+
 Inductive cres :=
 | COk (t : tree) (wt' : tree)       (* new revision tree, working-tree inventory afterwards *)
 | CErr (e : string).
@@ -319,10 +324,6 @@ Definition selected_changes (basis wt : tree) (S : option (list path)) (excl : l
   | ICOk cs => Some (filter_excluded excl cs)
   | ICNotVersioned => None
   end.
-
-(* osutils.minimum_path_selection: drop every path that lies inside another path of the list *)
-Definition min_sel (l : list path) : list path :=
-  filter (fun p => negb (existsb (fun q => is_inside q p && negb (path_eqb q p)) l)) l.
 
 Definition commit (basis wt : tree) (S0 : option (list path)) (excl0 : list path) : cres :=
   let S := option_map min_sel S0 in       (* self.specific_files = sorted(minimum_path_selection(...)) *)
@@ -343,17 +344,18 @@ Definition commit_tree basis wt S excl : option tree :=
 
 (* an id is selected when its old or its new path lies inside S; it is excluded when its old or
    its new path lies inside excl *)
-Definition sel_paths (S : option (list path)) : list path := match S with Some l => l | None => [[]] end.
+Definition sel_paths (S : option (list path)) : list path :=
+  match S with Some l => min_sel l | None => [[]] end.   (* inside (min_sel l) = inside l: Theory min_sel_inside *)
 Definition selected (basis wt : tree) (S : option (list path)) (excl : list path) (i : fid) : bool :=
   (oinside (sel_paths S) (tpath basis i) || oinside (sel_paths S) (tpath wt i)) &&
-  negb (oinside excl (tpath basis i) || oinside excl (tpath wt i)).
+  negb (oinside (min_sel excl) (tpath basis i) || oinside (min_sel excl) (tpath wt i)).
 
 (* what a commit records for an id of the working tree *)
 Definition committed_entry (o : option entry) : option entry :=
   match o with
   | Some e => if e_missing e then None
               else Some (mkE (e_parent e) (e_name e) (e_kind e) (e_content e)
-                             (match e_kind e with KFile => e_exec e | _ => false end) false)
+                             (eff_exec e) false)
   | None => None
   end.
 
@@ -383,7 +385,7 @@ Definition selection_closed (basis wt : tree) (S : option (list path)) (excl : l
   let cs := all_changes basis wt in
   let P := sel_paths S in
   (* G1: no id whose path differs between the trees has one end inside and one outside S / excl *)
-  forallb (fun c => both_paths_agree P c && both_paths_agree excl c) cs &&
+  forallb (fun c => both_paths_agree P c && both_paths_agree (min_sel excl) c) cs &&
   (* G2: the parent directories of selected changed paths need nothing unselected *)
   forallb (fun c => if c_changed c && hit P c then
                       match c_newp c with
